@@ -199,6 +199,7 @@ func genRx(r *Rng) *RxOpts {
 	rx := &RxOpts{PreHdr: r.Bool()}
 	rx.Hdr28 = rx.PreHdr && r.Chance(1, 4)
 	rx.HdrOther = rx.PreHdr && r.Chance(1, 4)
+	rx.WrongFirst = r.Chance(1, 6)
 	if r.Chance(1, 2) {
 		rx.Spare = Pick(r, 1, 16, 64, 512)
 	}
@@ -214,6 +215,9 @@ func genSAStep(r *Rng, id int, su Suite, modes ...string) Step {
 		st.Secret = r.Bytes(r.Range(1, 64))
 		st.Nonce = r.Bytes(r.Range(1, 64))
 		st.SpiI, st.SpiR = r.U64(), r.U64()
+		if r.Chance(1, 3) {
+			st.Mode, st.Nonce2 = "rekey", r.Bytes(r.Range(1, 64))
+		}
 	case "dh":
 		st.Nonce = r.Bytes(r.Range(16, 32))
 		st.Nonce2 = r.Bytes(r.Range(16, 32))
